@@ -14,6 +14,9 @@ void btc_logf_dummy(const char* fmt...);
 void btc_logf_stderr(const char* fmt...);
 inline bool btc_enabled(btc_logf_t logger) { return logger != btc_logf_dummy; }
 
+/** The opcode that `name` denotes ("OP_ADD", "ADD", "OP_xNN" for an arbitrary byte NN); false if it denotes none. */
+bool ParseOpCode(const char* name, opcodetype& opcode_out);
+/** As ParseOpCode, with OP_INVALIDOPCODE (0xff) for "none": cannot tell OP_xff from a string that is not an opcode. */
 opcodetype GetOpCode(const char* name);
 void GetStackFeatures(opcodetype opcode, size_t& spawns, size_t& slays);
 
